@@ -147,16 +147,16 @@ type FrontBlock struct {
 	Funcs []FrontFunc `json:"funcs"`
 }
 type FrontResult struct {
-	Status    string         `json:"status"`
-	PanicSite string         `json:"panicSite"`
-	Stderr    []string       `json:"stderr"`
-	Stdout    []string       `json:"stdout"`
-	Blocks    []FrontBlock   `json:"blocks"`
-	Groups    [][]jComment   `json:"groups"`
-	MarkersSane bool         `json:"markersSane"`
-	DistinctFields bool      `json:"distinctFields"`
-	MethodsApart bool        `json:"methodsApart"`
-	Metas     []FuncMeta     `json:"metas"`
+	Status         string       `json:"status"`
+	PanicSite      string       `json:"panicSite"`
+	Stderr         []string     `json:"stderr"`
+	Stdout         []string     `json:"stdout"`
+	Blocks         []FrontBlock `json:"blocks"`
+	Groups         [][]jComment `json:"groups"`
+	MarkersSane    bool         `json:"markersSane"`
+	DistinctFields bool         `json:"distinctFields"`
+	MethodsApart   bool         `json:"methodsApart"`
+	Metas          []FuncMeta   `json:"metas"`
 }
 
 type FuncMeta struct {
